@@ -141,13 +141,25 @@ class StackNode:
         self.j1939 = j1939
         self.notify_exc = collections.Counter()    # exceptions raised by ecu.notify (contained by the listener)
         self.notify_exc_samples = []
+        before = set(bus.sim.states)
         self.ecu = j1939.ElectronicControlUnit(data_link_layer=dll, send_message=self._send, **kw)
-        self.dll = self.ecu.j1939_dll
-        self.listener = self.ecu._listeners[0]
+        self.dll = getattr(self.ecu, 'j1939_dll', None)
+        # the integration surface for received frames: the ECU's own MessageListener (or a fresh one of the public class)
+        ls = getattr(self.ecu, '_listeners', None)
+        if ls:
+            self.listener = ls[0]
+        else:
+            import importlib
+            self.listener = importlib.import_module('j1939.electronic_control_unit').MessageListener(self.ecu)
         self.rx_frames = 0
         bus.add(self)
+        # the job thread = the controlled thread that came into being while the ECU was constructed (private name used only as a hint)
         jt = getattr(self.ecu, '_job_thread', None)
         self.job_state = getattr(jt, 'st', None)
+        if self.job_state is None:
+            new = [th for th in bus.sim.states if th not in before]
+            if len(new) == 1:
+                self.job_state = bus.sim.states[new[0]]
         if self.job_state is not None:
             self.job_state.is_job = True
             self.job_state.name = 'job:' + name
